@@ -184,6 +184,7 @@ type FuncVC struct {
 	inGlobalInv bool
 	bindingEscape bool
 	closureOnly map[*ssa.Alloc]bool
+	deferOnly   map[*ssa.Alloc]bool
 	inCall bool
 	curCallHasFuncArg bool
 	closureBindings []Val
